@@ -230,6 +230,9 @@ class C16(Prop):
                       "max_age": t.choice(MAX_AGES) if life in ("max_age", "both") else -1}
                 names.append(name)
                 step["ops"].append(op)
+            # the view works for a while between building the response object and each cookie call
+            for op in step["ops"]:
+                op["lag"] = t.choice([0, 0, 0, 0.75, 30, 4000])
             steps.append(step)
         return {"iface": iface, "zone": zone, "start": start, "steps": steps}
 
@@ -529,6 +532,10 @@ class _Server:
     def run_ops(self, resp, ops, rec):
         ctx, clock, zone = self.ctx, self.clock, self.zone
         for op in ops:
+            if op.get("lag"):
+                ctx.fault("time_passes_before_cookie_call")
+                clock.jump(op["lag"])
+                ctx.sim_time += op["lag"]
             t_call = clock.time()
             if utcoffset(zone, t_call):
                 ctx.fault("tz_non_utc")
